@@ -75,7 +75,7 @@ struct in_emit {
     st.mapper_known = in.mapper_known; st.mapper_real = in.mapper_real; st.mapper_apparent = in.mapper_apparent; \
     st.mapper_seq = in.mapper_seq; st.mapper_gen_topology = 0; st.mapper_gen_quick = 0; \
     st.see_list = (probe_t *)0; st.see_list_count = 0; st.small_icon = (void *)0; st.small_icon_size = 0; \
-    uint8_t *f = in.frame; \
+    V_EXACT_OBJECT(f, in.frame, V_MTU_FIXED); \
     uint16_t n = v_be16(f + 32); \
     uint32_t live0 = g_led.live; \
     lltd_iface_state o = st
